@@ -52,7 +52,7 @@ func (td TypeDeclaration) CompletionAtPos(ctx context.Context, pos hcl.Pos) []la
 		if eType.NameRange.ContainsPos(pos) || eType.NameRange.End.Byte == pos.Byte {
 			prefix := functionNamePrefix(td.pathCtx, eType.NameRange, eType.Name, pos)
 
-			editRange := eType.Range()
+			editRange := closedRange(eType.Range())
 			return allTypeDeclarationsAsCandidates(prefix, editRange)
 		}
 
